@@ -2,6 +2,9 @@
    changed textual fact breaks the obligations of the properties that own it and not those of every module that imports their lemmas. -/
 import CosetProofs.Ties.Budget.Cwt
 import CosetProofs.Ties.Budget.Context
+import CosetProofs.Ties.Compare.Common
+import CosetProofs.Ties.Compare.Context
+import CosetProofs.Ties.Compare.Cwt
 namespace Coset.Props.C18
 
 /-! ### ties to the source text (regenerated on every run, compared in the kernel with the transcribed tree) -/
@@ -13,5 +16,14 @@ theorem tie_budget_context : Coset.Ties.budgetCovered "context" Coset.Gen.decisi
 
 #print axioms tie_budget_cwt
 #print axioms tie_budget_context
+
+/-! comparisons and integer literals of the modules this property is anchored in (properties.jsonl): none beyond the transcribed tree's -/
+theorem tie_compare_common : Coset.Ties.compareCovered "common" Coset.Gen.decisionBudget Coset.Pinned.decisionBudget = true := Coset.Ties.compare_common
+theorem tie_compare_context : Coset.Ties.compareCovered "context" Coset.Gen.decisionBudget Coset.Pinned.decisionBudget = true := Coset.Ties.compare_context
+theorem tie_compare_cwt : Coset.Ties.compareCovered "cwt" Coset.Gen.decisionBudget Coset.Pinned.decisionBudget = true := Coset.Ties.compare_cwt
+
+#print axioms tie_compare_common
+#print axioms tie_compare_context
+#print axioms tie_compare_cwt
 
 end Coset.Props.C18
